@@ -72,7 +72,7 @@ def check_lifecycle(run, res):
         if got == want:
             continue
         if f3 is not None and got == f3:
-            res.finding("F3", "node %d (%s): KeyboardInterrupt inside its own enter or recur -> exit without clean/cease/abort" % (
+            res.finding("F3", "node %d (%s): KeyboardInterrupt / SystemExit inside its own enter or recur -> exit without clean/cease/abort" % (
                 nid, run.prog["nodes"][nid]["kind"]))
             continue
         res.violate("lifecycle-terminal", "node %d (%s): expected terminal %r, got %r; events %s" % (
